@@ -371,7 +371,91 @@ def stepGraph (st : DState) (e : Sexp) : Option (DState × String) :=
       | .ok (g, out, _) => s!"ok root wf:workflow out _:{out} " ++ showTriples g.allTriples)
   | _ => none
 
+def showQVar (v : QVar) : String :=
+  match v with
+  | [k] => "?s" ++ toString k
+  | _ => "?p" ++ ".".intercalate (v.map toString)
+
+def nodeUriText (ns : String) : Node → String
+  | .tf n => "<https://github.com/quangis/transforge#" ++ n ++ ">"
+  | .ns n => "<" ++ ns ++ n ++ ">"
+  | n => "<" ++ showNode n ++ ">"
+
+def showQTerm (ns : String) : QTerm → String
+  | .var v => showQVar v
+  | .workflow => "?workflow"
+  | .node n => nodeUriText ns n
+
+def showQPath : QPath → String
+  | .pred n => ":" ++ n
+  | .opt n => ":" ++ n ++ "?"
+  | .outputFrom => ":output/:from?"
+  | .inputFromInv => ":input/^:from?"
+
+def showQTriple (ns : String) (t : QTriple) : String :=
+  "(" ++ showQTerm ns t.s ++ " " ++ showQPath t.p ++ " " ++ showQTerm ns t.o ++ ")"
+
+def showQClause (ns : String) : QClause → String
+  | .one t => showQTriple ns t
+  | .union alts => "{" ++ " | ".intercalate (sortStrs (alts.map (showQTriple ns))) ++ "}"
+
+def showQuery (ns : String) (q : Query) : String :=
+  "pre[" ++ " ".intercalate (sortStrs ((q.prefilter.map (showQClause ns)).eraseDups)) ++ "] body[" ++
+    " ".intercalate (sortStrs ((q.body.map (showQClause ns)).eraseDups)) ++ "]"
+
+def qflagsOfBits (bs : List Bool) : QFlags :=
+  let b (i : Nat) := bs.getD i true
+  { byIo := b 0, byTypes := b 1, byOperators := b 2, byChronology := b 3, byPenultimateOutput := b 4, unfoldTree := b 5, bySecondInput := bs.getD 6 false }
+
+def qstep? : Sexp → Option QStep
+  | .list [.atom "step", .list (.atom "types" :: ts), .list (.atom "ops" :: os), .list (.atom "from" :: fs)] => do
+    pure { types := ← ts.mapM Sexp.ty?, ops := ← os.mapM atomStr, from_ := ← fs.mapM Sexp.nat? }
+  | _ => none
+
+def qtask? : Sexp → Option QTask
+  | .list [.atom "task", .list (.atom "steps" :: ss), .list (.atom "outputs" :: os), .list (.atom "inputs" :: is)] => do
+    pure { steps := ← ss.mapM qstep?, outputs := ← os.mapM Sexp.nat?, inputs := ← is.mapM Sexp.nat? }
+  | _ => none
+
+def node? (s : String) : Option Node :=
+  if s.startsWith "tf:" then some (.tf (s.drop 3).toString)
+  else if s.startsWith "ns:" then some (.ns (s.drop 3).toString)
+  else if s.startsWith "rdfs:" then some (.rdfs (s.drop 5).toString)
+  else if s.startsWith "rdf:" then some (.rdf (s.drop 4).toString)
+  else if s.startsWith "wf:" then some (.res (s.drop 3).toString)
+  else if s.startsWith "_:" then (s.drop 2).toString.toNat?.map Node.b
+  else none
+
+def triple? : Sexp → Option Triple
+  | .list [.atom a, .atom b, .atom c] => do pure (← node? a, ← node? b, ← node? c)
+  | _ => none
+
+def showQErr : QErr → String
+  | .cyclic => "CyclicTransformationGraphError"
+  | .nonCanonical => "NonCanonicalTypeError"
+  | .internal s => "Internal(" ++ s ++ ")"
+
+def stepQuery (st : DState) (e : Sexp) : Option (DState × String) :=
+  match e with
+  | .list [.atom "query", .atom bits, ns, t] => do
+    let ns ← Sexp.str? ns
+    let t ← qtask? t
+    pure (st, match genQuery st.glang t (qflagsOfBits (bits.toList.map (· == 'T'))) with
+      | .error err => "E:" ++ showQErr err
+      | .ok q => showQuery ns q)
+  | .list (.atom "qeval" :: .atom bits :: t :: .atom wf :: triples) => do
+    let t ← qtask? t
+    let wf ← node? wf
+    let triples ← triples.mapM triple?
+    pure (st, match genQuery st.glang t (qflagsOfBits (bits.toList.map (· == 'T'))) with
+      | .error err => "E:" ++ showQErr err
+      | .ok q => showBool (evalQuery q triples wf))
+  | _ => none
+
 def step (st : DState) (e : Sexp) : DState × String :=
+  match stepQuery st e with
+  | some r => r
+  | none =>
   match stepGraph st e with
   | some r => r
   | none =>
